@@ -349,6 +349,32 @@ def _situation(att, p, p2, bad, env):
                 return "staged-buffer-written-through-call-never-stored-back"
     if op == "autofission":
         return "no-dependence-check"
+    DIM_OPS = ("expand_dim", "divide_dim", "mult_dim", "unroll_buffer", "resize_dim", "rearrange_dim")
+    if op in DIM_OPS and isinstance(n, LoopIR.Alloc):
+        rest = _rest_of_block(c)
+        if any(isinstance(x, LoopIR.StrideExpr) and x.name == n.name for st in rest for x in walk(st)):
+            return "stride-expression-of-rewritten-buffer-not-adjusted"
+        al = {}
+        for st in rest:
+            for x in walk(st):
+                if isinstance(x, LoopIR.WindowStmt) and isinstance(x.rhs, LoopIR.WindowExpr):
+                    al[x.name] = al.get(x.rhs.name, x.rhs.name)
+        passed = any(isinstance(x, LoopIR.Call) and any(
+            (isinstance(y, (LoopIR.WindowExpr, LoopIR.Read)) and al.get(y.name, y.name) == n.name) for ar in x.args for y in walk(ar))
+            for st in rest for x in walk(st))
+        if passed and "assertFail" in bad:
+            return "callee-stride-precondition-not-rechecked"
+    if op == "sink_alloc" and isinstance(n, LoopIR.Alloc) and "scope" in bad:
+        nx = c.next()._impl._node
+        if isinstance(nx, LoopIR.If) and nx.orelse and n.name in (names_read(nx.orelse) | names_written(nx.orelse)):
+            return "if-else:copy-of-allocation-renamed-but-else-branch-not"
+    if op == "bind_expr":
+        stmt_path = [st for st in att["path"] if st[0] in ("body", "orelse")]
+        sn = locate(p, stmt_path)._impl._node
+        if isinstance(sn, LoopIR.Call):
+            return "call-argument:callee-writes-or-takes-a-tensor"
+    if op == "lift_alloc" and "nonPosSize" in bad:
+        return "extent-evaluated-where-guard-or-loop-was-skipped"
     if op == "autolift_alloc" and isinstance(n, LoopIR.Alloc) and "scope" in bad:
         import exo.API_cursors as C
         crossed, cur = set(), c.parent()
